@@ -447,15 +447,17 @@ def fp_partial(ei: int, last: int, x: int) -> bool:
     # first chunk must hold 2^e octets of the body; the rest goes into the final definite part
     first, rest = body[:2 ** e], body[2 ** e:2 ** e + last]
     total = first + rest
+    if len(total) < 6:
+        return True                                         # not a well-formed literal packet (format, name length, 4 time octets): outside the property
     raw = bytes([0xCB, 224 + e]) + first + bytes([len(rest)]) + rest
     buf = bytearray(raw) + bytearray(TRAIL)
     try:
         p = Packet(buf)
     except PGPError:
-        return len(total) < 6                               # too short to be a literal packet at all
+        return False
     if bytes(buf) != TRAIL:
         return False
-    if len(total) >= 6 and bytes(p._contents) != total[6:]:
+    if bytes(p._contents) != total[6:]:
         return False
     out = bytes(p.__bytearray__())
     sp = split_one(out)
